@@ -6,7 +6,7 @@ regenerate what they import on every run."""
 import os, subprocess, sys, warnings
 VERIF = os.path.dirname(os.path.dirname(os.path.abspath(__file__)))
 sys.path.insert(0, VERIF)
-os.environ["PERSIM_ROOT"] = "/repo"
+os.environ["PERSIM_ROOT"] = os.environ.get("VERIF_REGEN_ROOT") or "/repo"      # VERIF_REGEN_ROOT: a reviewed fix not yet committed to /repo
 from harness import common
 from harness.translator import consts, py2lean, py2ir
 import fcntl
